@@ -373,6 +373,12 @@ class ByteLoop:
                     part = (S & ts) if s["when"] == "true" else (S - ts)
                     if part:
                         work.append((s["to"], 0, part))
+            elif c is not None and len(succ) == 2 and X.show(X.strip(c)) in getattr(self, "assume", {}):
+                # a condition on non-byte state that the caller pins (e.g. "still in the host, no port colon yet")
+                want = self.assume[X.show(X.strip(c))]
+                for s in succ:
+                    if (s["when"] == "true") == want:
+                        work.append((s["to"], 0, S))
             else:
                 for s in succ:
                     work.append((s["to"], 0, S))
